@@ -111,12 +111,17 @@ def stub_launcher():
 
 
 class CropWorld:
-    def __init__(self, B, d):
+    def __init__(self, B, d, slow_first=False):
         import xyzpy as xyz
         from xyzpy.gen.cropping import grow
 
         self.B, self.d = B, d
-        self.f = xfn.make_fn(["a"], kind="num", name="f16")
+        # (slow_first: the first case of every batch takes longest, so a
+        # parallel grow completes its cases out of order)
+        self.f = xfn.make_fn(
+            ["a"], kind="num", name="f16",
+            delay=("a", list(range(1, 2 * B + 1, 2)), 0.4) if slow_first
+            else None)
         self.combos = {"a": list(range(1, 2 * B + 1))}
         crop = xyz.Crop(fn=self.f, name=NAME, parent_dir=d, num_batches=B)
         crop.sow_combos(self.combos, verbosity=0)
@@ -328,7 +333,7 @@ def real_interpreter(task):
     kind, sched, mode, have, sel, opts = task
     B = 3
     d = core.fresh_dir("c16r")
-    w = CropWorld(B, d)
+    w = CropWorld(B, d, slow_first="num_workers" in opts)
     w.grow_have(have)
     missing = [i for i in range(1, B + 1) if i not in have]
     env = dict(os.environ, PYTHONPATH=core.REPO, HOME=d)
@@ -371,9 +376,17 @@ def real_interpreter(task):
                  if l]
     want = [e for i in intended for e in w.batches[i]]
     ok = (not err) and sorted(calls) == sorted(want)
+    why = err or "evaluated %d settings, intended %d" % (len(calls), len(want))
+    if ok and set(have) | set(intended) == set(range(1, B + 1)):
+        # the crop must now reap exactly
+        try:
+            res = xyz.Crop(name=NAME, parent_dir=d).reap()
+            if tuple(res) != w.expect:
+                ok, why = False, "reaped %r, expected %r" % (res, w.expect)
+        except Exception as e:
+            ok, why = False, "reap raised %r" % e
     return {"ok": ok, "task": [kind, sched, mode, have, sel, opts],
-            "why": err or "evaluated %d settings, intended %d"
-            % (len(calls), len(want))}
+            "why": why}
 
 
 def run(ctx):
@@ -384,6 +397,9 @@ def run(ctx):
              ("script", "pbs", "single", [3], None,
               {"num_procs": 2, "num_workers": 2}),
              ("script", "slurm", "single", [], [3, 1], {"num_workers": 2}),
+             ("script", "slurm", "array", [], None, {"num_workers": 2}),
+             ("script", "sge", "array", [2], None,
+              {"num_procs": 2, "num_workers": 2}),
              ("script", "pbs", "array", [1, 2], None, {})]
     if ctx.tier == "thorough":
         for sched, mode in itertools.product(("sge", "pbs", "slurm"),
